@@ -1,2 +1,19 @@
 /* Wrappers exposing the inline key derivations of bpf/dhcp_fastpath.c (compiled together with the current source). */
 __attribute__((noinline)) __u64 verif_mac_to_u64(unsigned char *mac, __u64 unused) { return mac_to_u64(mac); }
+
+/* The circuit-id key the program derives from a BOOTP message (240 header bytes + 64 option bytes), one 8-byte
+ * little-endian word at a time; all-ones if the program finds no usable circuit-id. */
+__attribute__((noinline)) __u64 verif_cid_key_word(unsigned char *dhcp, __u64 word) {
+	struct circuit_id_key key;
+	if (!extract_circuit_id_fixed((void *)dhcp, (void *)(dhcp + 304), &key))
+		return ~0ULL;
+	__u64 w = 0;
+	for (int i = 0; i < 8; i++)
+		w |= (__u64)key.data[(word & 3) * 8 + i] << (8 * i);
+	return w;
+}
+
+__attribute__((noinline)) __u64 verif_cid_found(unsigned char *dhcp, __u64 unused) {
+	struct circuit_id_key key;
+	return extract_circuit_id_fixed((void *)dhcp, (void *)(dhcp + 304), &key) ? 1 : 0;
+}
